@@ -245,6 +245,18 @@ func rootsAtDeep(v ssa.Value, root ssa.Value, depth int) bool {
 				return true
 			}
 		}
+	case *ssa.Alloc:
+		// a struct-valued parameter spilled into a local slot (`t0 = local T (p); *t0 = p`): the slices and maps
+		// inside the copy are the caller's
+		if refs := x.Referrers(); refs != nil {
+			for _, ref := range *refs {
+				// ... or a local variable that was assigned something of the root's (`for _, bs := range qr.Bss`
+				// with bs kept in a slot because a closure captures it)
+				if st, ok := ref.(*ssa.Store); ok && st.Addr == ssa.Value(x) && (st.Val == root || rootsAtDeep(st.Val, root, depth+1)) {
+					return true
+				}
+			}
+		}
 	}
 	return false
 }
@@ -654,7 +666,7 @@ func init() {
 	register(&propertySpec{
 		ID:      "C04",
 		Explain: "Static fan-out rules for the event walk: every binding / action pair gets a child node on every iteration, each concurrently running action owns its bindings map, the goroutines' shared writes are under one mutex with a complete WaitGroup protocol, and nodes are complete only without error. Does not decide the variable environment seen by scripts, equality of tree / values / side effects, or which bindings the condition yields.",
-		Rules:   []ruleFn{ruleFanOwn, ruleFanSync, ruleFanEvery, ruleSetIfAbsent, ruleDispErr, ruleLoopAlias, ruleThunkLazy, ruleValuesOwnDisp, ruleDecodeDep, ruleIdxOrder("C04"), ruleRecoverResult, ruleModIndex("C04")},
+		Rules:   []ruleFn{ruleFanOwn, ruleFanSync, ruleFanEvery, ruleSetIfAbsent, ruleDispErr, ruleLoopAlias, ruleThunkLazy, ruleValuesOwnDisp, ruleDecodeDep, ruleIdxOrder("C04"), ruleRecoverResult, ruleModIndex("C04"), ruleQueryPure("C04"), ruleFanModeLocal},
 	})
 	register(&propertySpec{
 		ID:      "C05",
